@@ -16,7 +16,7 @@ CLAIMED = {
   note="Trusts M-rank's category assignment (self-checked counts). Indexes unreachable from seven cards are outside the property.",
   ref="4/C07"),
  "C02": dict(
-  technique="explicit-state exploration of the real iterator: every next() transition for every configuration of a colliding alphabet, compared per position as a multiset with a reference enumerator of legal deals",
+  technique="explicit-state exploration of the real iterator: every next() transition for every configuration of a colliding alphabet, compared per position as a multiset with a reference enumerator of legal deals; plus long in-iterator histories (tables sized over every factorisation of 2^8 and 2^16 +-1), eight construction routes to equal range contents, and the iterator adapters",
   text="The real FlopExhaustiveEvaluator iterator is driven from into_iter() to None for every range configuration of a small alphabet built so that combos collide with each other, with the flop and with both ends of the deck (all subsets for 1 player, all subset pairs for 2, triples for 3, up to 10 players, every range size across the u8 boundaries, all 22,100 flops in thorough); the complete yield is compared with the model's legal deals: nothing missing, extra or twice, correct board, players and probability.",
   note="Trusts M-deals (direct transcription of the property). Ranges are drawn from the structured alphabet and from prefixes/suffixes of the 1326 combos, not from all 2^1326 subsets.",
   ref="4/C02"),
@@ -26,17 +26,17 @@ CLAIMED = {
   note="Trusts the OS exit status and the 2 MiB stack size given to the thread. The family is structured (blocked runs up to 1.18 M deals, sizes around u8 boundaries, empty ranges, realistic notation), not all inputs.",
   ref="4/C08"),
  "C03": dict(
-  technique="bounded-exhaustive enumeration of tables on the real Showdown::new (every weak ordering of <=4 players, every winner subset of 5-10 players from a type alphabet, board-plays ties, all C(52,5) boards x fixed tables) against the reference ranking",
+  technique="bounded-exhaustive enumeration of tables on the real Showdown::new (every weak ordering of <=4 players, every winner subset of 5-10 players from a type alphabet, board-plays ties, all C(52,5) boards x fixed tables) against the reference ranking; plus call histories on one thread: all sequences of three calls over 24 deals, and runs of 66,000 repeated calls per seat of a full table",
   text="Real Showdown::new on families that realise every one of the 1/3/13/75 weak orderings of up to four players (measured on every run), every tie pattern at a full table, all-tie boards, every hole/board collision slot and (thorough) all 2,598,960 boards; flags, winner_len, order, own evaluation compared with the M-rank classes.",
   note="Trusts M-rank. Boards x tables are structured families, not the full product.",
   ref="4/C03"),
  "C04": dict(
-  technique="explicit-state exploration from every start state: all 693,253 scope windows of the position line run on the real iterator to exhaustion (+3 calls) and compared with the unscoped run; all two-cuts and grid three-cuts; repeated scope()",
+  technique="explicit-state exploration from every start state: all 693,253 scope windows of the position line run on the real iterator to exhaustion (+3 calls) and compared with the unscoped run; all two-cuts and grid three-cuts; repeated scope(); joint scope vs chain of one-position scopes on tables of up to 65,536 deals per position",
   text="Every (from, to) window of the 1176-position line (terminal included) is run on the real scoped evaluator and must yield exactly the unscoped showdowns of positions in [from,to), position by position in order, then stay exhausted. The window dimension is enumerated completely.",
   note="Reference = unscoped run of the same real evaluator, cross-checked with M-deals. One configuration in quick, four in thorough.",
   ref="4/C04"),
  "C05": dict(
-  technique="exhaustive enumeration of the token grammar (all 3,640 well-formed tokens x 9 weight literals) and bounded-exhaustive token lists (all ordered pairs, triples over a sub-alphabet) on the real parser against a reference meaning",
+  technique="exhaustive enumeration of the token grammar (all 3,640 well-formed tokens x 9 weight literals) and bounded-exhaustive token lists (all ordered pairs, triples over a sub-alphabet, partly present rank pairs, all weight literals of <= 3 fraction digits) on the real parser against a reference meaning; every consumption protocol of every token expansion iterator",
   text="Every well-formed token generated from the grammar is parsed both as a token (and expanded) and as a range and compared with the combos it denotes in standard notation; all ordered token pairs (988^2 in thorough) check last-wins on overlaps; spaces at every offset; empty input.",
   note="Trusts M-notation. Lists longer than three tokens are not enumerated.",
   ref="4/C05"),
@@ -46,7 +46,7 @@ CLAIMED = {
   note="Ranges are structured shapes (rows, inside-rank-pair, diagonals), not all 2^1326 subsets; weights from a 12-value set including 0, subnormal and 0.99999994.",
   ref="4/C06+C17"),
  "C09": dict(
-  technique="bounded-exhaustive string enumeration (all strings <= 4/5 symbols over notation+multi-byte alphabets; every string of the seven token shapes; over-long inputs) through every real parser and every follow-up use of the parsed value, under catch_unwind",
+  technique="bounded-exhaustive string enumeration (all strings <= 4/5 symbols over notation+multi-byte alphabets; every string of the seven token shapes; 42 special code points in every position of 16 texts) through every real parser and every follow-up use of the parsed value, under catch_unwind; over-long inputs each in a child process on a 2 MiB stack",
   text="Every string of the bounded families is parsed as rank, suit, card, card pair, token and range; every value obtained is formatted, expanded, split into rank pairs and leftovers and enumerated by the evaluator. The oracle is only 'returned normally'.",
   note="All strings over Unicode is infinite: the claim is for the stated alphabets and lengths, plus all 146,523 shape strings.",
   ref="4/C09"),
@@ -61,7 +61,7 @@ CLAIMED = {
   note="Range lists are three fixed suit-asymmetric overlapping lists; flops 220 (quick) or all 22,100 (thorough).",
   ref="4/C11"),
  "C12": dict(
-  technique="exhaustive enumeration of every absent/weight-a/weight-b pattern inside every rank pair (3^6, 3^4, 3^12) in three backgrounds on the real rank_pairs()/orphan_card_pairs() against a reference split",
+  technique="exhaustive enumeration of every absent/weight-a/weight-b pattern inside every rank pair (3^6, 3^4, 3^12) in three backgrounds on the real rank_pairs()/orphan_card_pairs() against a reference split, under every order of first calls on a fresh object",
   text="For every rank pair every pattern over its combos is built as a real HandRange alone, inside the complementary full range, and beside the same pattern on the neighbouring rank pair of the other kind; both views are compared with the statement's definition and must partition the range.",
   note="Trusts M-split. Quick uses 2^12 for most offsuit pairs; thorough 3^12 for all 78.",
   ref="4/C12"),
@@ -81,12 +81,12 @@ CLAIMED = {
   note="Leftover pocket combos may be printed twice (pinned by the repository's own test); the leftover section is compared as a set.",
   ref="4/C06+C17"),
  "C13": dict(
-  technique="complete enumeration of the finite domains (52 cards, 13 ranks, 4 suits, all 1- and 2-char ASCII strings, all Unicode scalars, all range endpoint pairs) on the real conversions",
+  technique="complete enumeration of the finite domains (52 cards, 13 ranks, 4 suits, all 1- and 2-char ASCII strings, all Unicode scalars, all range endpoint pairs) on the real conversions, every route to the order, twelve format specifications, every consumption protocol of the range iterators",
   text="Every value of every finite domain named by the property is run through the real conversion functions and compared with tables written from the property text.",
   note="Trusts the harness tables (rank/suit order and characters) transcribed from the property statement.",
   ref="4/C13"),
  "C14": dict(
-  technique="complete enumeration of all 52x51 ordered card pairs on the real CardPair/HandRange code",
+  technique="complete enumeration of all 52x51 ordered card pairs on the real CardPair/HandRange code; every pair the library hands out; every consumption protocol of RankPair::into_iter",
   text="All ordered pairs of distinct cards: equality, hashes under two hashers, element order, text round trip, and a range built from both orders of every combo.",
   note="Card order is taken from Card's Ord (tied to the stated order by C13).",
   ref="4/C14"),
